@@ -68,7 +68,7 @@ def gen_plan(rng, tier: str, idx: int) -> dict:
             else:
                 updates.append(call)
             calls.append(call)
-            n_states += B
+            n_states += len(call[3])  # a repeated call may have another batch size than the one it replaces
         elif r < 0.75:
             calls.append(["extract", rng.randrange(len(keysets)), rng.randrange(n_states)])
         elif r < 0.88:
@@ -86,7 +86,7 @@ def gen_plan(rng, tier: str, idx: int) -> dict:
 
 
 def gen_simple(rng):
-    kind = rng.choice(["dict", "dataclass", "namedtuple"])
+    kind = rng.choice(["dict", "dataclass", "dataclass_postinit", "namedtuple"])
     fields = [f"f{i}" for i in range(rng.randint(2, 5))]
     shapes = {f: rng.choice([[], [2], [2, 2]]) for f in fields}
     calls = []
@@ -269,7 +269,8 @@ def exec_liesel(plan, V, log, counters):
             mode, ks, elems = call[1], call[2], call[3]
             keys = plan["keysets"][ks]
             positions = [{k[0]: jnp.asarray(v, jnp.float32) for k, v in zip(keys, e["vals"])} for e in elems]
-            states = [pool[e["state"] % len(pool)] for e in elems]
+            assert all(e["state"] < len(pool) for e in elems), "plan refers to a state that does not exist yet"
+            states = [pool[e["state"]] for e in elems]
             in_digests = [state_digest(s) for s in states]
             if "vmap" in mode:
                 args = (stack_states(positions), stack_states(states))
@@ -332,12 +333,15 @@ def exec_liesel(plan, V, log, counters):
                 pool.append(o)
             # (2) history independence
             key = canon([mode, ks, elems])
-            dg = [state_digest(o) for o in outs]
-            if key in results and results[key] != dg:
-                V.add("history-dependence", mode, f"{where}: the same call (mode, position, state) returned a different state than earlier in this run")
             if key in results:
+                # bit-identical, except that TFP's identity-keyed bijector cache makes results of
+                # programs with transformed variables reproducible only up to float32 rounding
+                for o_old, o_new in zip(results[key], outs):
+                    err = states_equal(plain_state(o_old), plain_state(o_new), tol_eager)
+                    if err:
+                        V.add("history-dependence", mode, f"{where}: the same call (mode, position, state) returned a different state than earlier in this run: {err}")
                 counters["probe.repeated_call_compared"] = counters.get("probe.repeated_call_compared", 0) + 1
-            results[key] = dg
+            results[key] = outs
         elif kind == "extract":
             keys = plan["keysets"][call[1]]
             st = pool[call[2] % len(pool)]
@@ -384,16 +388,31 @@ def exec_liesel(plan, V, log, counters):
 
 
 def exec_simple(plan, V, log, counters):
-    fields = plan["fields"]
+    fields = list(plan["fields"])
     init = {f: jnp.asarray(plan["init"][f], jnp.float32) for f in fields}
+    lp_fields = list(fields)
 
     def lp_of(get):
-        return sum(jnp.sum(get(f) ** 2) * (i + 1) for i, f in enumerate(fields))
+        return sum(jnp.sum(get(f) ** 2) * (i + 1) for i, f in enumerate(lp_fields))
 
     if plan["kind"] == "dict":
         iface = gs.DictInterface(lambda s: lp_of(lambda f: s[f]))
         s0 = dict(init)
         get = lambda s, f: s[f]
+    elif plan["kind"] == "dataclass_postinit":
+        # a model state with a field that is not a constructor argument (kept by __post_init__)
+        def _post(self):
+            if not hasattr(self, "n_seen"):
+                self.n_seen = jnp.float32(0.0)
+
+        DC = dataclasses.make_dataclass("SimStatePost", [(f, Any) for f in fields] + [("n_seen", Any, dataclasses.field(init=False))],
+                                        namespace={"__post_init__": _post})
+        iface = gs.DataclassInterface(lambda s: lp_of(lambda f: getattr(s, f)))
+        s0 = DC(**init)
+        s0.n_seen = jnp.float32(17.0)
+        init = dict(init, n_seen=jnp.float32(17.0))
+        fields = fields + ["n_seen"]
+        get = lambda s, f: getattr(s, f)
     elif plan["kind"] == "dataclass":
         DC = register_dataclass_as_pytree(dataclasses.make_dataclass("SimState", [(f, Any) for f in fields]))
         iface = gs.DataclassInterface(lambda s: lp_of(lambda f: getattr(s, f)))
@@ -423,6 +442,10 @@ def exec_simple(plan, V, log, counters):
             pos = {k: jnp.asarray(v, jnp.float32) for k, v in zip(ks, vals)}
             st = pool[si]
             d0 = dig(st)
+            if plan["kind"] == "dataclass_postinit":
+                mode = "eager"  # not a registered pytree
+                if ci % 3 == 0:
+                    pos = dict(pos, n_seen=jnp.float32(ci))  # the extra field can be put, too
             f = iface.update_state if mode == "eager" else jax.jit(iface.update_state)
             try:
                 out = f(pos, st)
@@ -435,8 +458,8 @@ def exec_simple(plan, V, log, counters):
             for fld in fields:
                 if not M.same_value(get(out, fld), exp[fld]):
                     V.add("put", plan["kind"], f"{where}: field {fld} = {M.show(get(out, fld))}, expected {M.show(exp[fld])}")
-            got = iface.extract_position(ks, out)
-            for k in ks:
+            got = iface.extract_position(list(pos), out)
+            for k in pos:
                 if not M.same_value(got[k], pos[k]):
                     V.add("get-after-put", plan["kind"], f"{where}: {k}")
             if type(out) is not type(st):
